@@ -25,7 +25,7 @@ use vcore::{
 };
 
 use crate::{
-    certs::{material, Backend},
+    certs::{acceptor, connector, Backend},
     mem::{EndSched, Ev, MemEnd, MemR, MemW, Sh, Shared},
 };
 
@@ -65,6 +65,9 @@ pub struct TlsCase {
     pub segs: Vec<Seg>,
     /// [client end, server end]
     pub sched: [EndSched; 2],
+    /// regression cases only: do not avoid the known close_notify-lost shape (see `avoid_known_close`)
+    #[serde(default)]
+    pub raw_close: bool,
 }
 
 fn ev() -> impl Strategy<Value = Ev> {
@@ -94,7 +97,7 @@ fn side() -> impl Strategy<Value = SideCfg> {
 }
 
 pub fn strategy() -> impl Strategy<Value = TlsCase> + Clone {
-    (side(), side(), any::<bool>(), any::<bool>(), any::<bool>(), any::<bool>(), vec(seg(), 0..5), end_sched(), end_sched())
+    (side(), side(), prop_oneof![2 => Just(false), 1 => Just(true)], any::<bool>(), any::<bool>(), any::<bool>(), vec(seg(), 0..5), end_sched(), end_sched())
         .prop_map(|(client, server, tls12, duplex, client_closes_first, server_polled_first, segs, a, b)| TlsCase {
             client,
             server,
@@ -104,8 +107,9 @@ pub fn strategy() -> impl Strategy<Value = TlsCase> + Clone {
             server_polled_first,
             segs,
             sched: [a, b],
+            raw_close: false,
         })
-        .boxed()
+        .sboxed()
 }
 
 impl Seg {
@@ -128,13 +132,13 @@ pub fn payload(seg: usize, len: usize) -> Vec<u8> {
 
 pub enum Transport {
     Direct(MemEnd),
-    Compat(Pin<Box<AsyncStream<(MemR, MemW)>>>),
+    Compat { s: Pin<Box<AsyncStream<(MemR, MemW)>>>, sh: Sh, me: usize, accepted: u64 },
 }
 
 impl Transport {
-    fn new(end: MemEnd, via_async_stream: bool) -> Self {
+    fn new(end: MemEnd, via_async_stream: bool, sh: &Sh, me: usize) -> Self {
         if via_async_stream {
-            Transport::Compat(Box::pin(AsyncStream::new(end.into_halves())))
+            Transport::Compat { s: Box::pin(AsyncStream::new(end.into_halves())), sh: sh.clone(), me, accepted: 0 }
         } else {
             Transport::Direct(end)
         }
@@ -145,7 +149,7 @@ impl AsyncRead for Transport {
     fn poll_read(self: Pin<&mut Self>, cx: &mut Context<'_>, buf: &mut [u8]) -> Poll<std::io::Result<usize>> {
         match self.get_mut() {
             Transport::Direct(s) => Pin::new(s).poll_read(cx, buf),
-            Transport::Compat(s) => s.as_mut().poll_read(cx, buf),
+            Transport::Compat { s, .. } => s.as_mut().poll_read(cx, buf),
         }
     }
 }
@@ -154,21 +158,45 @@ impl AsyncWrite for Transport {
     fn poll_write(self: Pin<&mut Self>, cx: &mut Context<'_>, buf: &[u8]) -> Poll<std::io::Result<usize>> {
         match self.get_mut() {
             Transport::Direct(s) => Pin::new(s).poll_write(cx, buf),
-            Transport::Compat(s) => s.as_mut().poll_write(cx, buf),
+            Transport::Compat { s, accepted, .. } => {
+                let r = s.as_mut().poll_write(cx, buf);
+                if let Poll::Ready(Ok(n)) = &r {
+                    *accepted += *n as u64;
+                }
+                r
+            }
         }
     }
 
     fn poll_flush(self: Pin<&mut Self>, cx: &mut Context<'_>) -> Poll<std::io::Result<()>> {
         match self.get_mut() {
             Transport::Direct(s) => Pin::new(s).poll_flush(cx),
-            Transport::Compat(s) => s.as_mut().poll_flush(cx),
+            Transport::Compat { s, sh, me, accepted } => {
+                let r = s.as_mut().poll_flush(cx);
+                if let Poll::Ready(Ok(())) = &r {
+                    // futures-io contract: a successful flush means every accepted byte reached the inner writer
+                    let mut g = sh.borrow_mut();
+                    if g.delivered[*me] != *accepted && g.violation.is_none() {
+                        g.violation = Some((
+                            "C15/tls/AsyncStream/flush-ok-but-bytes-buffered".into(),
+                            format!(
+                                "compio_io::compat::AsyncStream::poll_flush returned Ready(Ok) on the {} end although only {} of the {} bytes accepted by poll_write reached the inner writer",
+                                ["client", "server"][*me],
+                                g.delivered[*me],
+                                *accepted
+                            ),
+                        ));
+                    }
+                }
+                r
+            }
         }
     }
 
     fn poll_close(self: Pin<&mut Self>, cx: &mut Context<'_>) -> Poll<std::io::Result<()>> {
         match self.get_mut() {
             Transport::Direct(s) => Pin::new(s).poll_close(cx),
-            Transport::Compat(s) => s.as_mut().poll_close(cx),
+            Transport::Compat { s, .. } => s.as_mut().poll_close(cx),
         }
     }
 }
@@ -200,9 +228,29 @@ type Fail = (String, String);
 
 struct SideCtl {
     phase: Phase,
+    /// `close()` returned Ok on this side
+    close_ok: bool,
 }
 
-async fn write_seg<W: AsyncWrite + Unpin>(w: &mut W, i: usize, s: &Seg) -> Result<(), Fail> {
+impl TlsCase {
+    /// Known finding C15/tls/close_notify-lost/closer=native: native `poll_close` reports success
+    /// although the transport's flush of the close_notify returned `Pending` (OpenSSL discards the
+    /// result of the BIO flush after an alert) and never retries it.  The shape is reachable exactly
+    /// when the native side's transport is flush-gated and its flush path can return `Pending`; for
+    /// those cases the application follows `close()` with `flush()` so the campaign continues.
+    pub fn avoid_known_close(&self, is_client: bool) -> bool {
+        let (cfg, sc) = if is_client { (&self.client, &self.sched[0]) } else { (&self.server, &self.sched[1]) };
+        if self.raw_close || cfg.backend != Backend::Native {
+            return false;
+        }
+        let pend = |l: &Vec<Ev>| l.iter().any(|e| e.pend > 0);
+        // (over AsyncStream the flush path never pends: see the suppression in `run`)
+        !cfg.via_async_stream && sc.buffering && pend(&sc.flush)
+    }
+}
+
+/// `staged()` = bytes sitting unflushed in this side's (direct, buffering) transport end
+async fn write_seg<W: AsyncWrite + Unpin>(w: &mut W, i: usize, s: &Seg, staged: &dyn Fn() -> usize) -> Result<(), Fail> {
     let data = payload(i, s.len as usize);
     for c in data.chunks(s.chunk_len()) {
         w.write_all(c).await.map_err(|e| (format!("write-error:{:?}", e.kind()), format!("segment {i}: write_all: {e}")))?;
@@ -211,6 +259,11 @@ async fn write_seg<W: AsyncWrite + Unpin>(w: &mut W, i: usize, s: &Seg) -> Resul
         }
     }
     w.flush().await.map_err(|e| (format!("flush-error:{:?}", e.kind()), format!("segment {i}: flush: {e}")))?;
+    // futures-io contract: a successful flush of the TLS stream leaves nothing buffered below it
+    let left = staged();
+    if left > 0 {
+        return Err(("flush-ok-but-bytes-staged".into(), format!("segment {i}: flush() returned Ok but {left} bytes are still unflushed in the transport")));
+    }
     Ok(())
 }
 
@@ -237,24 +290,28 @@ async fn read_seg<R: AsyncRead + Unpin>(r: &mut R, i: usize, s: &Seg) -> Result<
 }
 
 async fn run_side(is_client: bool, case: Rc<TlsCase>, transport: Transport, ctl: Rc<RefCell<SideCtl>>, sh: Sh, verif_dir: std::path::PathBuf) -> Result<(), Fail> {
-    let m = material(&verif_dir);
     let me = if is_client { 0 } else { 1 };
     let cfg = if is_client { case.client } else { case.server };
     let mut s: TlsStream<Transport> = if is_client {
-        m.connector(cfg.backend, case.tls12).connect("localhost", transport).await
+        connector(&verif_dir, cfg.backend, case.tls12).connect("localhost", transport).await
     } else {
-        m.acceptor(cfg.backend, case.tls12).accept(transport).await
+        acceptor(&verif_dir, cfg.backend, case.tls12).accept(transport).await
     }
     .map_err(|e| ("handshake-error".to_string(), format!("{}: {e}", if is_client { "connect" } else { "accept" })))?;
     ctl.borrow_mut().phase = Phase::Data;
     sh.borrow_mut().set_handshaking(me, false);
+    if sh.borrow().trace {
+        eprintln!("  [{}] handshake done", if is_client { "client" } else { "server" });
+    }
 
+    let sh2 = sh.clone();
+    let staged = move || sh2.borrow().backlog(me).1;
     if case.duplex {
         let (mut r, mut w) = s.split();
         let wr = async {
             for (i, sg) in case.segs.iter().enumerate() {
                 if sg.from_client == is_client {
-                    write_seg(&mut w, i, sg).await?;
+                    write_seg(&mut w, i, sg, &staged).await?;
                 }
             }
             Ok::<(), Fail>(())
@@ -274,7 +331,7 @@ async fn run_side(is_client: bool, case: Rc<TlsCase>, transport: Transport, ctl:
     } else {
         for (i, sg) in case.segs.iter().enumerate() {
             if sg.from_client == is_client {
-                write_seg(&mut s, i, sg).await?;
+                write_seg(&mut s, i, sg, &staged).await?;
             } else {
                 read_seg(&mut s, i, sg).await?;
             }
@@ -283,8 +340,13 @@ async fn run_side(is_client: bool, case: Rc<TlsCase>, transport: Transport, ctl:
 
     ctl.borrow_mut().phase = Phase::Close;
     let mut tail = [0u8; 16];
+    let avoid = case.avoid_known_close(is_client);
     if case.client_closes_first == is_client {
         s.close().await.map_err(|e| (format!("close-error:{:?}", e.kind()), format!("close: {e}")))?;
+        if avoid {
+            s.flush().await.map_err(|e| (format!("flush-error:{:?}", e.kind()), format!("flush after close: {e}")))?;
+        }
+        ctl.borrow_mut().close_ok = true;
         let n = s.read(&mut tail).await.map_err(|e| (format!("unclean-close:{:?}", e.kind()), format!("read after own close, waiting for the peer's close: {e}")))?;
         if n != 0 {
             return Err(("extra-bytes".into(), format!("{n} unexpected bytes after the last segment")));
@@ -295,6 +357,10 @@ async fn run_side(is_client: bool, case: Rc<TlsCase>, transport: Transport, ctl:
             return Err(("extra-bytes".into(), format!("{n} unexpected bytes after the last segment")));
         }
         s.close().await.map_err(|e| (format!("close-error:{:?}", e.kind()), format!("close: {e}")))?;
+        if avoid {
+            s.flush().await.map_err(|e| (format!("flush-error:{:?}", e.kind()), format!("flush after close: {e}")))?;
+        }
+        ctl.borrow_mut().close_ok = true;
     }
     ctl.borrow_mut().phase = Phase::Done;
     drop(s);
@@ -337,12 +403,31 @@ pub fn run(case: &TlsCase, verif_dir: &std::path::Path) -> Outcome {
     let call_cap = 40 * wire + 100_000;
     let step_cap = 2 * call_cap;
     let sh = Shared::new(case.sched.clone(), call_cap);
+    if !case.raw_close {
+        // known finding C15/tls/AsyncStream/flush-ok-but-bytes-buffered: reachable exactly when the inner
+        // writer of an AsyncStream returns Pending on its flush path; avoided by construction
+        for (i, cfg) in [case.client, case.server].iter().enumerate() {
+            if cfg.via_async_stream {
+                sh.borrow_mut().suppress_pend[i][1] = true;
+                sh.borrow_mut().suppress_pend[i][2] = true;
+            }
+        }
+    }
+    if !case.raw_close {
+        // known finding C15/tls/rustls/handshake/pending-flush-never-retried (futures-rustls forgets a flush
+        // that returned Pending while handshaking): avoided by construction on flush-gated rustls ends
+        for (i, cfg) in [case.client, case.server].iter().enumerate() {
+            if cfg.backend == Backend::Rustls && !cfg.via_async_stream && case.sched[i].buffering {
+                sh.borrow_mut().suppress_pend_hs[i][2] = true;
+            }
+        }
+    }
     let (ce, se) = MemEnd::pair(&sh);
     let rc = Rc::new(case.clone());
-    let ctl = [Rc::new(RefCell::new(SideCtl { phase: Phase::Handshake })), Rc::new(RefCell::new(SideCtl { phase: Phase::Handshake }))];
+    let ctl = [Rc::new(RefCell::new(SideCtl { phase: Phase::Handshake, close_ok: false })), Rc::new(RefCell::new(SideCtl { phase: Phase::Handshake, close_ok: false }))];
     let mut futs: [Option<Pin<Box<dyn Future<Output = Result<(), Fail>>>>>; 2] = [
-        Some(Box::pin(run_side(true, rc.clone(), Transport::new(ce, case.client.via_async_stream), ctl[0].clone(), sh.clone(), verif_dir.to_path_buf()))),
-        Some(Box::pin(run_side(false, rc.clone(), Transport::new(se, case.server.via_async_stream), ctl[1].clone(), sh.clone(), verif_dir.to_path_buf()))),
+        Some(Box::pin(run_side(true, rc.clone(), Transport::new(ce, case.client.via_async_stream, &sh, 0), ctl[0].clone(), sh.clone(), verif_dir.to_path_buf()))),
+        Some(Box::pin(run_side(false, rc.clone(), Transport::new(se, case.server.via_async_stream, &sh, 1), ctl[1].clone(), sh.clone(), verif_dir.to_path_buf()))),
     ];
     let flags = [Arc::new(Flag { set: AtomicBool::new(true), wakes: AtomicU64::new(0) }), Arc::new(Flag { set: AtomicBool::new(true), wakes: AtomicU64::new(0) })];
     let wakers = [Waker::from(flags[0].clone()), Waker::from(flags[1].clone())];
@@ -365,6 +450,16 @@ pub fn run(case: &TlsCase, verif_dir: &std::path::Path) -> Outcome {
                     futs[i] = None; // drops the stream: the transport end hangs up
                     if let Err((shape, detail)) = &r {
                         let phase = ctl[i].borrow().phase;
+                        let peer_cfg = if i == 0 { case.server } else { case.client };
+                        if phase == Phase::Close && shape.starts_with("unclean-close") && ctl[1 - i].borrow().close_ok {
+                            // the peer's close() reported success, yet its close_notify never arrived
+                            failure = Some((
+                                format!("C15/tls/close_notify-lost/closer={}", peer_cfg.backend.name()),
+                                format!("{} [{backends}] saw the transport end without close_notify although the peer's close() returned Ok: {detail}", names[i]),
+                            ));
+                            results[i] = Some(r);
+                            break 'outer;
+                        }
                         failure = Some((format!("C15/tls/{}/{}/{}/{}", if i == 0 { case.client.backend.name() } else { case.server.backend.name() }, names[i], phase.name(), shape), format!("{} [{backends}]: {detail}", names[i])));
                         results[i] = Some(r);
                         break 'outer;
@@ -372,6 +467,10 @@ pub fn run(case: &TlsCase, verif_dir: &std::path::Path) -> Outcome {
                     results[i] = Some(r);
                 }
             }
+        }
+        if let Some(v) = sh.borrow_mut().violation.take() {
+            failure = Some(v);
+            break;
         }
         if futs[0].is_none() && futs[1].is_none() {
             break;
@@ -383,8 +482,16 @@ pub fn run(case: &TlsCase, verif_dir: &std::path::Path) -> Outcome {
             debug_assert!(!sh.borrow().has_timers());
             let p = [ctl[0].borrow().phase, ctl[1].borrow().phase];
             let s = sh.borrow();
+            let mut sig = format!("C15/tls/deadlock/{backends}/client={},server={}", p[0].name(), p[1].name());
+            for i in 0..2 {
+                // root cause visible in the transport: staged bytes whose flush returned Pending and was never retried
+                if futs[i].is_some() && s.backlog(i).1 > 0 && s.flush_unretried[i] {
+                    let b = if i == 0 { case.client.backend } else { case.server.backend };
+                    sig = format!("C15/tls/{}/{}/pending-flush-never-retried", b.name(), p[i].name());
+                }
+            }
             failure = Some((
-                format!("C15/tls/deadlock/{backends}/client={},server={}", p[0].name(), p[1].name()),
+                sig,
                 format!(
                     "both sides Pending, no waker fired, nothing scheduled; client backlog (visible,staged)={:?} server backlog={:?}; polls={polls:?}",
                     s.backlog(0),
@@ -422,7 +529,7 @@ pub fn run(case: &TlsCase, verif_dir: &std::path::Path) -> Outcome {
     let (st_c, st_s) = (sh.borrow().stats(0), sh.borrow().stats(1));
     let mut labels: Vec<String> = vec![
         format!("backends:{backends}"),
-        format!("tls:{}", if case.tls12 { "1.2" } else { "1.3" }),
+        format!("tls:{}", if case.tls12 || case.server.backend == Backend::Native { "1.2" } else { "1.3" }),
         format!("mode:{}", if case.duplex { "duplex" } else { "turns" }),
     ];
     let buffering = [case.sched[0].buffering || case.client.via_async_stream, case.sched[1].buffering || case.server.via_async_stream];
@@ -431,6 +538,17 @@ pub fn run(case: &TlsCase, verif_dir: &std::path::Path) -> Outcome {
     }
     if case.client.via_async_stream || case.server.via_async_stream {
         labels.push("via-compio-AsyncStream".into());
+    }
+    let pend_wf = |sc: &EndSched| sc.write.iter().chain(&sc.flush).any(|e| e.pend > 0);
+    if !case.raw_close && ((case.client.via_async_stream && pend_wf(&case.sched[0])) || (case.server.via_async_stream && pend_wf(&case.sched[1]))) {
+        labels.push("known-shape-avoided:AsyncStream-stale-flush(no Pending on its write/flush path)".into());
+    }
+    let rustls_gated = |cfg: &SideCfg, sc: &EndSched| cfg.backend == Backend::Rustls && !cfg.via_async_stream && sc.buffering && sc.flush.iter().any(|e| e.pend > 0);
+    if !case.raw_close && (rustls_gated(&case.client, &case.sched[0]) || rustls_gated(&case.server, &case.sched[1])) {
+        labels.push("known-shape-avoided:rustls-handshake-pending-flush(no Pending flush while handshaking)".into());
+    }
+    if case.avoid_known_close(true) || case.avoid_known_close(false) {
+        labels.push("known-shape-avoided:close_notify-lost(flush after close)".into());
     }
     let hs_partial_and_pending = |s: &crate::mem::EndStats| s.hs_partial_writes > 0 && s.hs_pend_reads > 0;
     if hs_partial_and_pending(&st_c) || hs_partial_and_pending(&st_s) {
@@ -455,4 +573,56 @@ pub fn run(case: &TlsCase, verif_dir: &std::path::Path) -> Outcome {
     .into());
     let nontrivial = labels.iter().any(|l| l == "flush-gated-transport" || l == "handshake:partial-write+pending-read");
     Outcome::pass_owned(nontrivial, labels)
+}
+
+// ------------------------------------------------------------------------------------------------
+// fixed cases
+
+pub fn regressions() -> Vec<(&'static str, TlsCase)> {
+    let side = |backend, via_async_stream| SideCfg { backend, via_async_stream };
+    let pend1 = vec![Ev { limit: 0, pend: 1 }];
+    let base = |client, server| TlsCase {
+        client,
+        server,
+        tls12: false,
+        duplex: false,
+        client_closes_first: false,
+        server_polled_first: false,
+        segs: vec![],
+        sched: [EndSched::default(), EndSched::default()],
+        raw_close: true,
+    };
+    // known finding: native poll_close reports success while the flush of the close_notify is still Pending
+    let mut k1 = base(side(Backend::Native, false), side(Backend::Rustls, false));
+    k1.sched[0] = EndSched { buffering: true, read: vec![], write: vec![], flush: pend1.clone() };
+    // known finding: AsyncStream::poll_flush completes a stale flush future (here under a rustls client)
+    let mut k2 = base(side(Backend::Rustls, true), side(Backend::Native, false));
+    k2.sched[0] = EndSched { buffering: false, read: vec![], write: vec![], flush: pend1.clone() };
+    // known finding: futures-rustls forgets a handshake flush that returned Pending
+    let mut k3 = base(side(Backend::Native, false), side(Backend::Rustls, false));
+    k3.sched[1] = EndSched { buffering: true, read: vec![], write: vec![Ev { limit: 0, pend: 0 }], flush: pend1 };
+    // golden cases (must pass): every back-end pair over byte-by-byte, flush-gated transports
+    let tiny = |buffering| EndSched { buffering, read: vec![Ev { limit: 1, pend: 2 }, Ev { limit: 7, pend: 0 }], write: vec![Ev { limit: 1, pend: 1 }, Ev { limit: 3, pend: 3 }], flush: vec![] };
+    let segs = vec![
+        Seg { from_client: true, len: 5000, chunk: 300, flush_each: false, rbuf: 100 },
+        Seg { from_client: false, len: 70, chunk: 0, flush_each: true, rbuf: 65535 },
+        Seg { from_client: false, len: 0, chunk: 0, flush_each: false, rbuf: 0 },
+        Seg { from_client: true, len: 20000, chunk: 65535, flush_each: false, rbuf: 40000 },
+    ];
+    let mut out = vec![("known-native-close-flush-pending", k1), ("known-asyncstream-stale-flush", k2), ("known-rustls-handshake-flush-pending", k3)];
+    for (name, c, s) in [
+        ("golden-native-native", Backend::Native, Backend::Native),
+        ("golden-native-rustls", Backend::Native, Backend::Rustls),
+        ("golden-rustls-native", Backend::Rustls, Backend::Native),
+        ("golden-rustls-rustls", Backend::Rustls, Backend::Rustls),
+    ] {
+        let mut g = base(side(c, false), side(s, false));
+        g.raw_close = false;
+        g.duplex = c == s;
+        g.client_closes_first = c == Backend::Native;
+        g.segs = segs.clone();
+        g.sched = [tiny(true), tiny(true)];
+        out.push((name, g));
+    }
+    out
 }
